@@ -313,8 +313,14 @@ def style_case(case, rec):
             except Exception as e:  # noqa: BLE001
                 rec.violation("add_style_raised", {"exc": type(e).__name__}, {"msg": str(e)[:200], "stage": "after-first-save"}, case=case)
                 return
+            ours = {st_.name for _, st_ in styles} | {plain.name}
+            builtin = [doc.styles[n] for n in sorted(doc.styles) if n not in ours]
             for pos in rng.sample(sorted(applied), max(1, len(applied) // 2)):
-                st = plain if rng.random() < .6 else rng.choice(styles)[1]
+                k_ = rng.random()
+                # the new style may be one made just now, one of this session's, or one of the document's own, untouched styles
+                st = plain if k_ < .45 else rng.choice(styles)[1] if k_ < .7 or not builtin else rng.choice(builtin)
+                if k_ >= .7 and builtin:
+                    rec.count("cells_restyled_with_a_style_of_the_document")
                 t.set_cell_style(pos[0], pos[1], st)
                 applied[pos] = st
                 rec.count("cells_restyled_after_a_save")
